@@ -55,9 +55,9 @@ type checker struct {
 	// cross-talk between colliding fields is folded (see scenario_test.go)
 	nameSamples int
 	precSamples int
-	crossSeen  bool
-	crossFirst *scenario
-	crossOut   outcome
+	crossSeen   bool
+	crossFirst  *scenario
+	crossOut    outcome
 }
 
 // eval runs one scenario and reports whatever the oracle finds.
@@ -211,9 +211,10 @@ func TestC15(t *testing.T) {
 		c.run.detailed = true
 		out := c.run.run(s, sc)
 		c.run.detailed = false
-		replay := map[string]any{"scenario": sc, "all_mismatches": out.Mismatches, "details": out.Details}
+		// the replay object holds nothing that depends on the direction of the cross-talk (it is re-observed by --replay)
+		replay := map[string]any{"scenario": sc, "what": "DBHost (key db_host) and DB.Host (key db.host) share the variable <PREFIX>_DB_HOST; with only their two different supplied defaults present, one of the two fields is loaded with the other one's default (which one depends on map iteration order inside the link step)"}
 		if len(out.Mismatches) == 0 {
-			replay = map[string]any{"scenario": c.crossFirst, "all_mismatches": c.crossOut.Mismatches, "details": c.crossOut.Details}
+			replay = map[string]any{"scenario": c.crossFirst, "what": "cross-talk between the colliding fields seen in this case but not in the canonical one"}
 		}
 		rep.Violation("precedence:crosstalk:tag=colliding", replay)
 	}
@@ -239,15 +240,15 @@ func TestC15(t *testing.T) {
 		fam[s.Name] = map[string]any{"depth": s.Depth, "leaf_fields": fl}
 	}
 	rep.Coverage["bound"] = map[string]any{
-		"structures":           fam,
-		"prefixes":             map[string]any{"envnames_and_validation": prefixes, "precedence": precPrefixes},
-		"subsets_per_field":    16,
-		"backgrounds":          backgroundNames(thorough),
-		"value_variants":       "non-bool: all values non-zero and pairwise distinct over (source, field) | explicit zero at the winning source; bool: 4 patterns over (flag,env,file,def) separating every pair of sources",
-		"flag_modes":           "flag set: bound by full name / name without prefix / mixed-case name / BindFlagsToEnv pair; flag not set: unbound / bound with zero default / bound with non-zero default",
-		"file_syntaxes":        fileFormats(thorough),
-		"required_patterns":    "precedence part: none / target / all (rotating); validation part: see evaluations_per_part",
-		"tier":                 ev.Tier(),
+		"structures":             fam,
+		"prefixes":               map[string]any{"envnames_and_validation": prefixes, "precedence": precPrefixes},
+		"subsets_per_field":      16,
+		"backgrounds":            backgroundNames(thorough),
+		"value_variants":         "non-bool: all values non-zero and pairwise distinct over (source, field) | explicit zero at the winning source; bool: 4 patterns over (flag,env,file,def) separating every pair of sources",
+		"flag_modes":             "flag set: bound by full name / name without prefix / mixed-case name / BindFlagsToEnv pair; flag not set: unbound / bound with zero default / bound with non-zero default",
+		"file_syntaxes":          fileFormats(thorough),
+		"required_patterns":      "precedence part: none / target / all (rotating); validation part: see evaluations_per_part",
+		"tier":                   ev.Tier(),
 		"sequential_one_process": true,
 	}
 	rep.Coverage["samples"] = c.samples
